@@ -289,7 +289,9 @@ class IntronGraph:
 
         # check all incoming edges
         logger.debug("Removing incoming tips and bulges")
-        for current_intron in sorted(self.incoming_edges.keys()):
+        # against the direction of the graph, so that a collapse can be followed by the next one upstream within this pass
+        # (as it is downstream in the pass over the outgoing edges)
+        for current_intron in sorted(self.incoming_edges.keys(), reverse=True):
             inc_introns = self.incoming_edges[current_intron]
             substitute_dict = self.collapse_vertex_set(inc_introns)
             for i in sorted(substitute_dict.keys()):
